@@ -120,12 +120,32 @@ def gen_modular(rng, kind):
         top = lang.V('sz')
         return f, top, defs, []
     top, consts = lang.lift_constants(rng, top, 0.4)
+    if rng.random() < 0.2:
+        # named assertions that nothing refers to (a requirement monitored alongside): they disappear from the
+        # inlined form and must not influence the output - whatever their own state or look-ahead
+        import copy
+        c2 = copy.copy(c)
+        c2.dup, c2.max_depth = 0.0, rng.choice([1, 2, 2])
+        c2.vars = lang.variables(f) or ['x']          # (only variables the data set carries)
+        if kind == 'dt_on_pastified':
+            c2.max_bound = 8
+        defs = list(defs)
+        for k in range(rng.randint(1, 2)):
+            for _ in range(50):
+                g = lang.gen_formula(rng, c2)
+                if kind != 'dt_on_pastified' or lang.horizon(g) <= 10:
+                    break
+            else:
+                continue
+            if kind == 'dt_on_pastified' and rng.random() < 0.6:
+                g = lang.N(rng.choice(['eventually', 'always']), g, ivl=(0, lang.horizon(f) + rng.randint(1, 3)))
+            defs.insert(rng.randint(0, len(defs)), ('su%d' % k, g))
     return f, top, defs, consts
 
 
 class C09(Prop):
     id = 'C09'
-    rule_added = "15% with declared constants as interval bounds next to a suffixed begin; dense: 12% two named assertions whose intervals differ only in the unit. 15% under an interface-aware semantics on both forms; 6% C06's shared-term template."
+    rule_added = "20% with 1-2 named assertions that nothing refers to (after pastify() often with a longer look-ahead than the output). 15% with declared constants as interval bounds next to a suffixed begin; dense: 12% two named assertions whose intervals differ only in the unit. 15% under an interface-aware semantics on both forms; 6% C06's shared-term template."
     rule = ('a generated formula is decomposed at random into 1..4 named sub-specifications (nested, every occurrence '
             'of a chosen sub-formula replaced, so some are referenced 2-3 times; stateful sub-specs included) and up to '
             '2 declared constants; the modular spec (add_sub_spec or several assertions in one text) and the inlined '
